@@ -306,4 +306,6 @@ func C03(p *an.Prog, r *an.Report) {
 	c02SigTypeSource(p, r, "C03.S3")
 	ns := mappingSiteRule(p, r, "C03.S2")
 	r.Floor("embedded_mapping_sites", ns, 4)
+	// S4: arithmetic on wire lengths and counts in narrow integer types cannot wrap
+	narrowArith(p, r, "C03.S4", nil)
 }
